@@ -664,15 +664,32 @@ pub fn run_invocation(scratch: &mut Scratch, tree: &Tree, inv: &Inv, out: &Path)
     // watchdog: code that blocks on a primitive the simulator does not own (a std Mutex held across
     // a scheduling point, a std Condvar) would block this OS thread for real. That is a limit of the
     // simulator, not a verdict: report it as a harness error instead of hanging the check.
-    let t0 = std::time::Instant::now();
+    // CPU time is sampled per 250 ms window and a window counts for at most 0.3 s: a spin is ten
+    // seconds of *sustained* consumption. (A single jump of the thread's CPU clock - the VM being
+    // paused for a snapshot while the thread was running put 38 "CPU seconds" on four threads at
+    // once - is one window, not a spin.)
+    let mut windows = 0u32;
+    let mut last_cpu: Option<f64> = None;
+    let mut busy = 0.0f64;
     while let Err(std::sync::mpsc::RecvTimeoutError::Timeout) = done_rx.recv_timeout(std::time::Duration::from_millis(250)) {
-        if t0.elapsed() > std::time::Duration::from_secs(3) {
-            // an invocation normally takes about a millisecond. One that has burnt many CPU seconds
-            // without reaching a scheduling point is spinning in the code under test (a busy loop the
+        windows += 1;
+        {
+            // an invocation normally takes about a millisecond. One that keeps burning CPU without
+            // reaching a scheduling point is spinning in the code under test (a busy loop the
             // scheduler cannot see); its OS thread cannot be stopped and is leaked.
             let tid = tid_cell.load(std::sync::atomic::Ordering::SeqCst);
-            if let Some(cpu) = thread_cpu_secs(tid) {
-                if cpu >= SPIN_CPU_SECS {
+            if let Some(cpu_now) = thread_cpu_secs(tid) {
+                if let Some(prev) = last_cpu {
+                    let d = (cpu_now - prev).max(0.0);
+                    if d >= 0.1 {
+                        busy += d.min(0.3);
+                    } else {
+                        busy = 0.0;
+                    }
+                }
+                last_cpu = Some(cpu_now);
+                let cpu = busy;
+                if windows > 12 && cpu >= SPIN_CPU_SECS {
                     SPINS.fetch_add(1, std::sync::atomic::Ordering::SeqCst);
                     std::mem::forget(handle);
                     return Outcome {
@@ -683,7 +700,7 @@ pub fn run_invocation(scratch: &mut Scratch, tree: &Tree, inv: &Inv, out: &Path)
                         chanlog: vec![],
                         arrival: vec![],
                         panics: vec![],
-                        panic_message: format!("uncontrolled_spin: {cpu:.0} CPU seconds without reaching a scheduling point"),
+                        panic_message: format!("uncontrolled_spin: {cpu:.0} CPU seconds of sustained consumption without reaching a scheduling point"),
                         probes: Default::default(),
                         fired: Default::default(),
                         schedule: vec![],
@@ -699,7 +716,8 @@ pub fn run_invocation(scratch: &mut Scratch, tree: &Tree, inv: &Inv, out: &Path)
                 }
             }
         }
-        if t0.elapsed() > std::time::Duration::from_secs(120) {
+        // (windows, not wall-clock time: a clock jump is not two minutes of waiting)
+        if windows > 480 {
             println!("HARNESS-ERROR an invocation blocked outside the simulator for 120 s (unsimulated blocking primitive?): {:?} {:?}", inv.lang, inv.mode);
             std::process::exit(2);
         }
